@@ -26,7 +26,27 @@ func main() {
 	if len(os.Args) < 2 {
 		usage()
 	}
+	// the committed table of reference names (see core/refnames.go) sits next to the checker: <verif>/anchors_ref.json
+	if v := os.Getenv("NPVERIF_REF"); v != "" {
+		core.RefPath = v
+	} else if exe, err := os.Executable(); err == nil {
+		core.RefPath = filepath.Join(filepath.Dir(filepath.Dir(exe)), "anchors_ref.json")
+	}
 	switch os.Args[1] {
+	case "ref-gen":
+		// writes the reference table from the tree as it is now (run on the tree the rules were confirmed against)
+		core.RefPath = ""
+		prog, err := core.Load(envOr("NPVERIF_REPO", "/repo"), nil)
+		if err != nil {
+			fmt.Fprintln(os.Stderr, "ref-gen:", err)
+			os.Exit(2)
+		}
+		out := filepath.Join(envOr("NPVERIF_DIR", "/verif"), "anchors_ref.json")
+		if err := prog.WriteRefTable(out); err != nil {
+			fmt.Fprintln(os.Stderr, "ref-gen:", err)
+			os.Exit(2)
+		}
+		fmt.Println("written", out)
 	case "check":
 		os.Exit(cmdCheck(os.Args[2:]))
 	case "variant":
